@@ -55,7 +55,7 @@ GAMMAS_SMALL = [Gamma(1, 0), Gamma(Fraction(1, 2), 0), Gamma(2, -3), Gamma(1, -7
 RECMODE = ["dict"]  # how records are handed to fill(): "dict", "attr" (attribute records) or "scalar" (bare numbers)
 
 
-def _fn_src(field, fid):
+def _fn_src(field, fid, strok=False):
     if field == "N2":
         core = "__import__('numpy').array([d['x'], d['y']]).T"
     elif field == "cS":
@@ -68,8 +68,11 @@ def _fn_src(field, fid):
         core = "d[%r]" % field
     if fid:
         # fails only on data that carry this quantity's fault id (row-wise dict data only)
+        # the faulty quantity raises, or returns something of the wrong type: a list or - where strings are not
+        # data - a NumPy string scalar
         return ("lambda d: (%s) if d['fa'] != %r else ((_ for _ in ()).throw(ValueError('injected fault')) "
-                "if d['fm'] == 'raise' else [])" % (core, fid))
+                "if d['fm'] == 'raise' else (__import__('numpy').str_('zz') if d['fm'] == 'npstr' and %r else []))"
+                % (core, fid, not strok))
     return "lambda d: %s" % core
 
 
@@ -96,7 +99,8 @@ def make_quantity(node):
         # string expression; its auto-name is the expression itself (descriptor nm must say so)
         assert not fid and field in ("x", "y", "s", "c")
         return field
-    fn = eval(_fn_src(field, fid), {})
+    # (strings are data for Categorize and for string-valued Bags)
+    fn = eval(_fn_src(field, fid, strok=node["k"] == "Categorize" or field == "cS"), {})
     if form == "tup" and field == "N2" and not fid:
         # the vector of a Bag as a tuple of plain Python floats (row-wise histories only)
         fn = eval("lambda d: (d['x'], d['y'])", {})
